@@ -121,7 +121,11 @@ fn check(which: Which, ex: &Ex, pts: &[(Vars, Memo)]) -> Vec<(String, String)> {
                     out.push(("memory-references".to_string(), format!("reports {got:?}, the expression contains {w2:?}")));
                 }
                 // evaluate is Ok iff everything is supplied; substitution commutes with evaluation
-                let (vfull, mfull) = &pts[0];
+                // two value assignments: a generic one, and one whose values *collide* with literal
+                // leaves of the alphabet (x = 1, y = 2.5, a[0] = -1), so that a shortcut that compares
+                // a substituted operand with its sibling is forced to fire
+                let collide: (Vars, Memo) = ([("x".to_string(), C::new(1.0, 0.0)), ("y".to_string(), C::new(2.5, 0.0))].into(), [("a".to_string(), vec![-1.0, 1.0]), ("b".to_string(), vec![0.0, 2.5])].into());
+                for (vfull, mfull) in [&pts[0], &collide] {
                 let mems: Vec<Memo> = vec![
                     HashMap::new(),
                     [("a".to_string(), mfull["a"].clone())].into(),
@@ -173,6 +177,7 @@ fn check(which: Which, ex: &Ex, pts: &[(Vars, Memo)]) -> Vec<(String, String)> {
                             }
                         }
                     }
+                }
                 }
             }
         }
@@ -316,7 +321,7 @@ pub static C13: PropDef = PropDef {
     id: "C13",
     level: "exploration",
     engine: "sweep",
-    rule: "every expression tree of depth <= 2 over the same alphabet x all 4 subsets of {x,y} bound x 4 memory maps (none, a only, a and b, a too short): evaluate is Ok iff everything is supplied, substitute-then-evaluate == evaluate, memory_references == address leaves (multiset), partial substitution keeps other variables. non-trivial = non-leaf tree",
+    rule: "every expression tree of depth <= 2 over the same alphabet x 2 value assignments (a generic one and one whose values collide with literal leaves of the alphabet) x all 4 subsets of {x,y} bound x 4 memory maps (none, a only, a and b, a too short): evaluate is Ok iff everything is supplied, substitute-then-evaluate == evaluate, memory_references == address leaves (multiset), partial substitution keeps other variables. non-trivial = non-leaf tree",
     assumptions: &["finite lattice of literal values and one value assignment per variable"],
     run: |ctx| sweep(ctx, Which::C13),
     replay: |c| replay(Which::C13, c),
